@@ -245,19 +245,17 @@ def s_split(F, R):
     rd = set()
     if reader is not None:
         for n in walk(reader["body"]):
-            if n.get("k") == "MCall" and n["name"] in ("starts_with", "strip_prefix"):
-                a = strip(n["args"][0])
-                if a.get("k") == "Lit":
-                    rd.add(a["v"])
+            if n.get("k") == "Lit" and n.get("lk") == "str" and str(n.get("v", "")).startswith("$"):
+                rd.add(n["v"])
     R.table("generated_column_prefixes", {"writer": sorted(writer), "reader": sorted(rd)})
     R.ob("S-SPLIT", "writer=reader", writer == rd and writer == {"$p", "$m", "$sl_", "$su_", "$a_"}, "packages/rooc/src/transformers/standardizer.rs",
-         "column-name prefixes generated by the standardizer/two-phase start %s must be exactly the ones the tableau read-back understands %s" % (sorted(writer), sorted(rd)))
+         "column-name prefixes generated by the standardizer/two-phase start %s must be exactly the ones the tableau read-back understands %s" % (sorted(writer), sorted(rd)), undecided=(not writer or not rd))
 
 
 def sign_rhs(F, R):
     f = F.fn("transformers::standard_linear_model::EqualityConstraint::new")
     if f is None:
-        R.ob("SIGN-SPLIT", "EqualityConstraint::new:anchor", False, "", "not found")
+        R.ob("SIGN-SPLIT", "EqualityConstraint::new:anchor", False, "", "not found", undecided=True)
         return
     R.fn(f["path"])
     ms = [n for n in walk(f["body"]) if n.get("k") in ("Match", "If")]
